@@ -32,6 +32,7 @@ RULE = (
     "configuration."
     " A second process variant runs with the package's debug logging switched on."
 )
+RULE += ' Round 10: SE-sparse delta extents; content flavours; Parallels File values compared with the descriptor after every open(); the scratch path is reused by every case.'
 ASSUMPTIONS = [
     "path-based parents are real files in a scratch directory (/dev/shm), written sparsely",
     "every layer of a chain has the same virtual size (what the tools create)",
